@@ -176,12 +176,19 @@ func runC16(c *Ctx) {
 		if r.Bool() {
 			add(1, r.Bytes(8))
 		}
+		// catalog and time-zone names have a plain one-byte length: every length 0..255 is legal, 251..254 are not markers
+		nameLen := func(small int) int {
+			if q := r.Side(); q.Chance(1, 5) {
+				return q.Pick(250, 251, 252, 253, 254, 255, 128, 64)
+			}
+			return r.Intn(small)
+		}
 		switch r.Intn(3) {
 		case 0:
-			n := r.Intn(6)
+			n := nameLen(6)
 			add(6, append([]byte{byte(n)}, r.Bytes(n)...))
 		case 1:
-			n := r.Intn(6)
+			n := nameLen(6)
 			add(2, append(append([]byte{byte(n)}, r.Bytes(n)...), 0))
 		}
 		if r.Bool() {
@@ -193,7 +200,7 @@ func runC16(c *Ctx) {
 			cs = vh.L(vh.I(int64(p[0])|int64(p[1])<<8), vh.I(int64(p[2])|int64(p[3])<<8), vh.I(int64(p[4])|int64(p[5])<<8))
 		}
 		if r.Bool() {
-			n := r.Intn(5)
+			n := nameLen(5)
 			add(5, append([]byte{byte(n)}, r.Bytes(n)...))
 		}
 		for code := 7; code <= 20; code++ {
